@@ -1724,6 +1724,13 @@ func (sa *Application) tryNode(node *Node, ask *Allocation) (*AllocationResult, 
 
 	// everything OK really allocate
 	if node.TryAddAllocation(ask) {
+		// The RM can drain, or remove, the node while this cycle runs: the node is marked unschedulable before it is
+		// cleaned up. An allocation added after that point is not seen by the node removal and would be left behind
+		// on a node that is no longer part of the partition.
+		if ask.GetRequiredNode() == "" && !node.IsSchedulable() {
+			node.RemoveAllocation(allocationKey)
+			return nil, nil
+		}
 		if err := sa.queue.TryIncAllocatedResource(ask.GetAllocatedResource()); err != nil {
 			log.Log(log.SchedApplication).DPanic("queue update failed unexpectedly",
 				zap.Error(err))
